@@ -294,3 +294,22 @@ package file
 //@   loop 1 iter-ensures minOffset <= offset#2
 //@   callee seek(off, whence, hint)
 //@     preserves jobProvider
+
+// ---------------------------------------------------------------------------
+// C03: a file that appears after the start phase is read from its beginning:
+// the offsets loaded at start describe files of the previous run and are never
+// applied to it (a recycled inode would otherwise skip the head of a new file).
+
+//@ func (*jobProvider).addJob
+//@   option allow-exit yes
+//@   ghost started bool = false
+//@   callee Load() (r)
+//@     pure
+//@     set started := r
+//@   callee initEofInfo(j)
+//@     private
+//@   callee seek(off, whence, hint)
+//@     private
+//@   callee initJobOffset(op, j)
+//@     requires started ==> op == offsetsOpReset
+//@     requires !started ==> op == jp.config.OffsetsOp_
